@@ -27,6 +27,16 @@ TYPES = {
     "bool": ("bool", None, "Boolean", ("b", 1, 1)),
     "utf8": ("bytes", 0, "Utf8", ("t",)), "binary": ("bytes", None, "Binary", ("x",)),
     "i96": ("i96", None, "Timestamp(ns)", ("ts",)),
+    # LogicalType annotations (SchemaElement field 10) and decimals
+    "utf8l": ("bytes", None, "Utf8", ("t",), "string"), "u8l": ("i32", None, "UInt8", ("u", 8, 32), "int:8:u"),
+    "i16l": ("i32", None, "Int16", ("s", 16, 32), "int:16:s"), "u32l": ("i32", None, "UInt32", ("u", 32, 32), "int:32:u"),
+    "u64l": ("i64", None, "UInt64", ("u", 64, 64), "int:64:u"),
+    "datel": ("i32", None, "Date32", ("d", 32, 32), "date"),
+    "ts_ms": ("i64", None, "Timestamp(ms)", ("p", 64, 64, "Millisecond"), "timestamp:millis:1"),
+    "ts_us": ("i64", None, "Timestamp(\u03bcs)", ("p", 64, 64, "Microsecond"), "timestamp:micros:0"),
+    "ts_ns": ("i64", None, "Timestamp(ns)", ("p", 64, 64, "Nanosecond"), "timestamp:nanos:1"),
+    "dec32": ("i32", 5, "Decimal64(9,2)", ("dec", 30, 32, 9, 2), None, (2, 9)),
+    "dec64": ("i64", None, "Decimal64(18,3)", ("dec", 60, 64, 18, 3), "decimal:3:18", (3, 18)),
 }
 ENCS = {
     "i32": ["plain", "dict", "dbp", "bss"], "i64": ["plain", "dict", "dbp", "bss"],
@@ -34,6 +44,8 @@ ENCS = {
     "u32": ["plain", "dict", "dbp"], "date": ["plain", "dbp"], "u64": ["plain", "dict", "dbp"],
     "f32": ["plain", "dict", "bss"], "f64": ["plain", "dict", "bss"], "bool": ["plain", "rle"],
     "utf8": ["plain", "dict", "dlba", "dba"], "binary": ["plain", "dict", "dlba", "dba"], "i96": ["plain", "dict"],
+    "utf8l": ["plain", "dba"], "u8l": ["plain", "dbp"], "i16l": ["dict"], "u32l": ["dbp"], "u64l": ["plain", "dbp"],
+    "datel": ["plain"], "ts_ms": ["plain", "dbp"], "ts_us": ["dict"], "ts_ns": ["dbp", "bss"], "dec32": ["plain", "dbp"], "dec64": ["plain", "dict"],
 }
 DELTA_FAMILY = ("dbp", "dlba", "dba")
 STRS = ["", "a", "abc", "abcdefghijklmnop", "abcx", "zz", "héllo", "中文", "ab\u0000c", "x" * 40, "abcdefgh"]
@@ -42,13 +54,24 @@ F64 = [0, 1 << 63, 0x3ff0000000000000, 0xbff0000000000000, 0x7ff0000000000000, 0
        0x7ff8000000000000, 1, 0x7fefffffffffffff, 0x400921fb54442d18]
 
 
+def int_cell(kind, v):
+    k = kind[0]
+    if k == "d":
+        return "T%d" % v
+    if k == "p":
+        return "P%s:%d" % (kind[3], v)
+    if k == "dec":
+        return "D%d/%d/%d" % (v, kind[3], kind[4])
+    return "I%d" % v
+
+
 def gen_value(rng, tname, style):
     """-> (model token, expected engine cell)"""
     kind = TYPES[tname][3]
     k = kind[0]
-    if k in ("s", "u", "d"):
+    if k in ("s", "u", "d", "p", "dec"):
         lbits, pbits = kind[1], kind[2]
-        lo, hi = (-(1 << (lbits - 1)), (1 << (lbits - 1)) - 1) if k in ("s", "d") else (0, (1 << lbits) - 1)
+        lo, hi = (-(1 << (lbits - 1)), (1 << (lbits - 1)) - 1) if k != "u" else (0, (1 << lbits) - 1)
         if style == "small":
             v = rng.below(11) - 5 if lo < 0 else rng.below(11)
         elif style == "mono":
@@ -93,7 +116,7 @@ def gen_column(rng, name, tname, enc, optional, pattern, n, style=None):
         g = gen_value(rng, tname, style)
         if len(g) == 4:  # integer family
             v, lbits, pbits, k = g
-            lo, hi = (-(1 << (lbits - 1)), (1 << (lbits - 1)) - 1) if k in ("s", "d") else (0, (1 << lbits) - 1)
+            lo, hi = (-(1 << (lbits - 1)), (1 << (lbits - 1)) - 1) if k != "u" else (0, (1 << lbits) - 1)
             if k == "d":
                 lo, hi = -100000, 100000
             if v is None:  # monotone walk with occasional jumps
@@ -101,7 +124,7 @@ def gen_column(rng, name, tname, enc, optional, pattern, n, style=None):
                 cur = max(lo, min(hi, cur))
                 v = cur
             tok = str(v & ((1 << pbits) - 1))
-            cell = ("T%d" if k == "d" else "I%d") % v
+            cell = int_cell(kind, v)
         else:
             tok, cell = g
         toks.append(tok)
@@ -112,7 +135,9 @@ def gen_column(rng, name, tname, enc, optional, pattern, n, style=None):
                 or (pattern == "runs" and (i // 9) % 2 == 1)
             if null:
                 toks[i], cells[i] = "N", "N"
+    tt = TYPES[tname]
     return {"name": name, "tname": tname, "type": TYPES[tname][0], "conv": TYPES[tname][1], "ht": TYPES[tname][2],
+            "logical": tt[4] if len(tt) > 4 else None, "decimal": tt[5] if len(tt) > 5 else None,
             "optional": optional, "enc": enc, "vals": toks, "cells": cells,
             "pages": None, "rle": (rng.choice([1, 2, 4, 8, 1000]), rng.choice([1, 1, 2, 3])),
             "delta": rng.choice([(128, 4), (128, 4), (128, 1), (256, 2), (256, 8)]), "dictx": rng.choice([0, 0, 0, 1, 5])}
@@ -122,8 +147,13 @@ def spec_line(case, path):
     parts = ['(file (out "%s") (v2 %d) (rgs %s) (created_by "%s") (lvl %d %d)' % (
         path, case["v2"], " ".join(str(x) for x in case["rgs"]), case["created_by"], case["lvl"][0], case["lvl"][1])]
     for c in case["cols"]:
-        parts.append('(col (name "%s") (type %s) (conv %s) (optional %d) (enc %s) (pages %s) (rle %d %d) (delta %d %d) (dictx %d) (vals %s))' % (
-            c["name"], c["type"], "none" if c["conv"] is None else c["conv"], 1 if c["optional"] else 0, c["enc"],
+        extra = ""
+        if c.get("logical"):
+            extra += " (logical %s)" % c["logical"]
+        if c.get("decimal"):
+            extra += " (decimal %d %d)" % c["decimal"]
+        parts.append('(col (name "%s") (type %s) (conv %s)%s (optional %d) (enc %s) (pages %s) (rle %d %d) (delta %d %d) (dictx %d) (vals %s))' % (
+            c["name"], c["type"], "none" if c["conv"] is None else c["conv"], extra, 1 if c["optional"] else 0, c["enc"],
             " ".join(str(x) for x in c["pages"]), c["rle"][0], c["rle"][1], c["delta"][0], c["delta"][1], c["dictx"],
             " ".join(c["vals"])))
     return " ".join(parts) + ")"
@@ -141,7 +171,7 @@ def k1_cases(rng, tier):
         for e in encs:
             for opt, pat in [(False, "none"), (True, "none"), (True, "all"), (True, "alt"), (True, "rand"), (True, "runs")]:
                 combos.append((t, e, opt, pat))
-    reps = 1 if tier == "quick" else 6
+    reps = 3 if tier == "quick" else 12
     cases = []
     pending = []
     for rep in range(reps):
@@ -271,9 +301,9 @@ def predict(case, bs, gmodel):
                     for i, g in zip(idx, got):
                         lb = kind[1]
                         g &= (1 << lb) - 1
-                        if kind[0] in ("s", "d") and g >> (lb - 1):
+                        if kind[0] != "u" and g >> (lb - 1):
                             g -= 1 << lb
-                        cells[i] = ("T%d" if kind[0] == "d" else "I%d") % g
+                        cells[i] = int_cell(kind, g)
                 else:
                     op = c["enc"]
                     if len(vals) > 1 and (len(vals) - 1) % blk == 0:
@@ -405,7 +435,7 @@ def stage_files(ctx, rng, gverif, gmodel, known_ids):
                 if first is None:
                     first = {"want_rows": len(exp_rows), "got_rows": len(got_rows)}
             viol.append({"what": ("read_parquet result differs from the encoded table" if fk is None else "read_parquet fails on a valid file")
-                         + (" (repaired defect returned: %s)" % ", ".join(former) if former else ""),
+                         + (" (the file exercises the repaired defect class(es): %s)" % ", ".join(former) if former else ""),
                          "replay": replay_of(c, bs, p, {"failure": fk, "first_difference": first, "faithful_model_page_failures": fails[:4],
                                                         "matches_faithful_model": matched,
                                                         "exercises_repaired_defect_classes": former}),
@@ -430,7 +460,7 @@ def rand_reads(rng, total, over=False):
 
 
 def stage_decoders(ctx, rng, gvpq, gmodel, known_ids):
-    n = 250 if ctx["tier"] == "quick" else 4000
+    n = 1500 if ctx["tier"] == "quick" else 12000
     enc_lines, plan = [], []
     for i in range(n):
         op = rng.choice(["unpack", "rle", "rle", "dbp", "dbp", "vlq", "lens"])
